@@ -201,12 +201,13 @@ int main(int argc, char** argv) {
 				for (size_t k = shard; k < idx.size(); k += 32) {
 					uint64_t i = idx[k]; uint8_t a[64], b[64]; ref_item(0, i, a); g_sc.item(i, b); R.n["items_vs_model"]++;
 					uint64_t s = i & ~3ull; if (s + 4 > N) s = N - 4;
+					{ char cur[160]; snprintf(cur, sizeof cur, "{\"kind\":\"item\",\"index\":%llu,\"which\":1,\"finding_key\":\"c08:item-crash\"}", (unsigned long long)i); vf::set_current(cur); }   // a call that writes outside the dataset faults: that is a verdict of this item
 					const char* w = memcmp(a, b, 64) ? "light-mode item differs from the specification" : nullptr;
 					for (int which = 0; which < 2 && !w; ++which) { randomx_init_dataset(&ds, g_cache[which], s, 4); R.n["items_initialised"] += 4; if (memcmp(a, g.mem + 64 * i, 64)) w = which ? "dataset (compiled initialiser) differs from the light-mode item" : "dataset (interpreted initialiser) differs from the light-mode item"; }
 					if (w && R.viol.size() < 3) { vf::Violation v; v.key = "c08:item"; v.what = std::string(w) + " at item " + std::to_string(i); v.replay = vf::Json::obj().set("kind", "item").set("index", (unsigned long long)i).set("which", 1); R.viol.push_back(v); }
 				}
 				return R;
-			});
+			}, true, 3600);
 			total.merge(r);
 		}
 	}
